@@ -175,6 +175,10 @@ func hm_EffectOf(p int) int {
 func Harness_C17_mercury() {
 	K := vr.Param("K", 1)
 	id := vr.OneOf("alert.id", "lmm:planned_work:12", "lmm:alert:34", "other:56")
+	elev := vr.Param("ELEV", 0) == 1 // an elevator alert that also carries Mercury alert data: metadata is still appended on request
+	if elev {
+		id = "A27N#EL1"
+	}
 	a := &gtfsrt.Alert{}
 	origCause, origEffect := gtfsrt.Alert_UNKNOWN_CAUSE, gtfsrt.Alert_UNKNOWN_EFFECT
 	lite := vr.Param("LITE", 0) == 1 // several informed entities: everything else about the alert is fixed
@@ -198,7 +202,9 @@ func Harness_C17_mercury() {
 		sel := &gtfsrt.EntitySelector{StopId: &stop}
 		en := ent{}
 		maxShape := 4
-		if lite {
+		if elev {
+			maxShape = 0 // no per-selector Mercury data: the priority rules stay out of the picture
+		} else if lite {
 			maxShape = 1 // no Mercury data, or "xx:NN"
 		}
 		switch hConcretize(vr.Int(vr.T("sel", k, ".shape"), 0, maxShape), 0, maxShape) {
@@ -283,8 +289,12 @@ func Harness_C17_mercury() {
 		return
 	}
 	g := r.Alerts[0]
-	vr.Assert("C17.cause", g.Cause == wantCause)
-	vr.Assert("C17.effect", int(g.Effect) == wantEffect)
+	if !elev {
+		vr.Assert("C17.cause", g.Cause == wantCause)
+		vr.Assert("C17.effect", int(g.Effect) == wantEffect)
+	} else {
+		vr.Assert("C17.elevator.cause_effect", g.Cause == gtfs.Maintenance && g.Effect == gtfs.AccessibilityIssue)
+	}
 	var wantDesc []gtfs.AlertText
 	if hasDesc {
 		wantDesc = append(wantDesc, gtfs.AlertText{Text: desc})
@@ -297,7 +307,9 @@ func Harness_C17_mercury() {
 		wantDesc = append(wantDesc, gtfs.AlertText{Text: string(b), Language: nyctalerts.MetadataLanguage})
 	}
 	vr.Assert("C17.metadata", vr.DeepEq(g.Description, wantDesc))
-	vr.Assert("C17.informed_kept", len(g.InformedEntities) == K)
+	if !elev {
+		vr.Assert("C17.informed_kept", len(g.InformedEntities) == K)
+	}
 }
 
 // Alerts carrying no NYCT data and no elevator id parse as with no extension.
